@@ -255,7 +255,7 @@ func (r *RectClip64) executeInternal(path Path64) {
 	for i <= highI {
 		r.verifTick("rectclip.executeInternal")
 		prev = loc
-		prevCrossLoc := Inside
+		prevCrossLoc := crossingLoc
 		r.getNextLocation(path, &loc, &i, highI)
 		if i > highI {
 			break
